@@ -29,6 +29,8 @@ pub struct GenCfg {
   pub steps: usize,
   /// probability of the wide profile (every task reads one common source first; histories of bottom-up builds)
   pub wide: f64,
+  /// probability of the deep-chain profile (negative: the default mix)
+  pub chain: f64,
 }
 
 struct G<'a> {
@@ -338,7 +340,8 @@ pub fn generate(seed: u64, index: usize, cfg: &GenCfg) -> Scenario {
                   one_chk: fam != "TWOCHK" };
   let mut prog: Vec<Vec<Vec<Op>>> = Vec::new();
   let flip = free && g.rng.gen_bool(0.6);
-  let chain = wide.is_none() && !free && !ident && nt >= 4 && g.rng.gen_bool(if nt >= 6 { 0.4 } else { 0.25 });
+  let chain = wide.is_none() && !free && !ident && nt >= 4 && g.rng.gen_bool(if cfg.chain >= 0.0 { cfg.chain } else if nt >= 6 { 0.4 } else { 0.25 });
+  let forced_chain = chain && cfg.chain >= 0.0;
   for t in 1..=nt as i64 {
     if flip {
       // role-changing task: it reads the mode resource 1 first and plays a different role (writer / reader / requirer /
@@ -371,11 +374,22 @@ pub fn generate(seed: u64, index: usize, cfg: &GenCfg) -> Scenario {
   let mut note = String::new();
   // injected violation
   if fam == "INJ" {
-    let t = rng.gen_range(1..=nt as i64);
+    let mut t = rng.gen_range(1..=nt as i64);
     // half of the injections sit in the first row, which every execution of the task reaches
-    let pc = if rng.gen_bool(0.5) { 0 } else { rng.gen_range(0..len) };
-    let kind = rng.gen_range(0..3);
+    let mut pc = if rng.gen_bool(0.5) { 0 } else { rng.gen_range(0..len) };
+    let mut kind = rng.gen_range(0..4);
+    // kind 3: a task that reads a resource generated by another task writes it itself afterwards (overlap behind a read edge)
+    let mut after_read: Option<i64> = None;
+    if kind == 3 {
+      let mut cands: Vec<(i64, usize, i64)> = Vec::new();
+      for tt in 1..=nt as i64 { for p in 0..len.saturating_sub(1) { for a in 0..na as usize {
+        let o = &prog[(tt - 1) as usize][p][a];
+        if o.k == "rd" && writer[(o.x - 1) as usize] != 0 && writer[(o.x - 1) as usize] != tt { cands.push((tt, p + 1, o.x)); }
+      } } }
+      match cands.choose(&mut rng) { Some((tt, p, r)) => { t = *tt; pc = *p; after_read = Some(*r); } None => { kind = 1; } }
+    }
     let op = match kind {
+      3 => { let r = after_read.unwrap(); if rng.gen_bool(0.7) { Op::wr(r, "eq", rng.gen_range(0..nv)) } else { Op::wt(r, "eq", rng.gen_range(0..nv)) } }
       0 => { // hidden read: a generated resource without requiring its writer (or any resource)
         let gens: Vec<i64> = (1..=nr as i64).filter(|r| writer[(*r - 1) as usize] != 0 && writer[(*r - 1) as usize] != t).collect();
         let r = gens.choose(&mut rng).copied().unwrap_or(rng.gen_range(1..=nr as i64));
@@ -384,7 +398,9 @@ pub fn generate(seed: u64, index: usize, cfg: &GenCfg) -> Scenario {
       1 => { // second writer / write of a source resource that others read
         let others: Vec<i64> = (1..=nr as i64).filter(|r| writer[(*r - 1) as usize] != t).collect();
         let r = others.choose(&mut rng).copied().unwrap_or(1);
-        if rng.gen_bool(0.7) { Op::wr(r, "eq", rng.gen_range(0..nv)) } else { Op::wt(r, "eq", rng.gen_range(0..nv)) }
+        // files are mostly written by other means and declared afterwards
+        let direct = if rtype[(r - 1) as usize] == 3 { 0.3 } else { 0.7 };
+        if rng.gen_bool(direct) { Op::wr(r, "eq", rng.gen_range(0..nv)) } else { Op::wt(r, "eq", rng.gen_range(0..nv)) }
       }
       _ => { // require against the static order (possible cycle, including self)
         let u = rng.gen_range(1..=t);
@@ -412,7 +428,7 @@ pub fn generate(seed: u64, index: usize, cfg: &GenCfg) -> Scenario {
   };
   let mixed = rng.gen_bool(0.35) || matches!(fam, "ROLE" | "INJ" | "ABORT");
   let first_roots = if ident { (1..=nt as i64).collect::<Vec<_>>() }
-    else if wide.is_some() || rng.gen_bool(0.5) {
+    else if wide.is_some() || forced_chain || rng.gen_bool(0.5) {
       // all tasks, often not in id order: node creation order (initial ranks) then differs from the static require order, so
       // that later dynamic requires go from younger to older nodes and reorder the topological ranks
       let mut v: Vec<i64> = (1..=nt as i64).collect();
@@ -426,7 +442,7 @@ pub fn generate(seed: u64, index: usize, cfg: &GenCfg) -> Scenario {
   let mut boom_armed = false;
   for _ in 0..steps {
     // environment changes
-    let nchg = match rng.gen_range(0..10) { 0 if wide.is_none() => 0, 0..=5 => 1, 6..=8 => 2, _ => 3 };
+    let nchg = if forced_chain { rng.gen_range(2..=3) } else { match rng.gen_range(0..10) { 0 if wide.is_none() => 0, 0..=5 => 1, 6..=8 => 2, _ => 3 } };
     for _ in 0..nchg {
       let r = if flip && rng.gen_bool(0.7) { 1 } else if let (Some(s), true) = (wide, rng.gen_bool(0.6)) { s } else { rng.gen_range(1..=nr as i64) };
       let v = rng.gen_range(-1..nv);
@@ -445,7 +461,7 @@ pub fn generate(seed: u64, index: usize, cfg: &GenCfg) -> Scenario {
       }
     }
     // wide profile: mostly bottom-up builds after a change of the common source
-    let roll = if wide.is_some() && rng.gen_bool(0.6) { 0 } else { rng.gen_range(0..100) };
+    let roll = if (wide.is_some() || forced_chain) && rng.gen_bool(0.6) { 0 } else { rng.gen_range(0..100) };
     if roll < 45 && (fam != "ROLE" || rng.gen_bool(0.4)) {
       // bottom-up build reporting every change since the last one (plus sometimes unchanged resources)
       let mut changed: Vec<i64> = dirty.iter().copied().collect();
